@@ -135,64 +135,30 @@ Proof.
   destruct (N.eqb_spec DS_DEFAULT g); intuition congruence.
 Qed.
 
-Definition wipe_harmless (st : qset) (d : doc) : Prop :=
-  wipes (d_fmt d) = true -> forall q, In q st -> q_g q <> DS_DEFAULT.
-
 Lemma parse_call_In fr st d q :
-  wipe_harmless st d ->
-  (In q (parse_call fr st d) <->
-   In q st \/ In q (map (sub_stmt (node_fn fr (disc_of (d_fmt d))) (d_target d)) (d_stmts d))).
-Proof.
-  intros Hw. unfold parse_call. rewrite add_stmts_In by apply env_ok_nil.
-  destruct (wipes (d_fmt d)) eqn:E; [|tauto].
-  rewrite wipe_default_In. specialize (Hw E). split; [tauto|].
-  intros [H|H]; auto.
-Qed.
-
-(* without the hypothesis: everything in the result is old or from the document *)
-Lemma parse_call_In_weak fr st d q :
-  In q (parse_call fr st d) ->
+  In q (parse_call fr st d) <->
   In q st \/ In q (map (sub_stmt (node_fn fr (disc_of (d_fmt d))) (d_target d)) (d_stmts d)).
-Proof.
-  unfold parse_call. rewrite add_stmts_In by apply env_ok_nil.
-  destruct (wipes (d_fmt d)); [rewrite wipe_default_In|]; tauto.
-Qed.
+Proof. unfold parse_call. apply add_stmts_In, env_ok_nil. Qed.
 
 (* ------------------------------------------------------------------ *)
 (* the trigger predicate, read *)
 
 Lemma kf_step_0 st d :
   kf_step st d = 0 ->
-  wipe_harmless st d /\
-  (disc_of (d_fmt d) = Identity ->
-   forall l, In l (labels_of (d_stmts d)) -> occurs_in (lab_node l) st = false).
+  disc_of (d_fmt d) = Identity ->
+  forall l, In l (labels_of (d_stmts d)) -> occurs_in (lab_node l) st = false.
 Proof.
-  unfold kf_step, wipe_harmless.
-  destruct (wipes (d_fmt d)) eqn:Ew; simpl.
-  - destruct (existsb (fun q => N.eqb (q_g q) DS_DEFAULT) st) eqn:Ex; [discriminate|].
-    intros H. split.
-    + intros _ q Hq Hg.
-      assert (existsb (fun q => N.eqb (q_g q) DS_DEFAULT) st = true)
-        by (apply existsb_exists; exists q; split; auto; now apply N.eqb_eq).
-      congruence.
-    + intros Hd. rewrite Hd in H.
-      destruct (existsb (fun l => occurs_in (lab_node l) st) (labels_of (d_stmts d))) eqn:Ec; [discriminate|].
-      intros l Hl. destruct (occurs_in (lab_node l) st) eqn:Eo; auto.
-      assert (existsb (fun l => occurs_in (lab_node l) st) (labels_of (d_stmts d)) = true)
-        by (apply existsb_exists; eauto).
-      congruence.
-  - intros H. split; [discriminate|].
-    intros Hd. rewrite Hd in H.
-    destruct (existsb (fun l => occurs_in (lab_node l) st) (labels_of (d_stmts d))) eqn:Ec; [discriminate|].
-    intros l Hl. destruct (occurs_in (lab_node l) st) eqn:Eo; auto.
-    assert (existsb (fun l => occurs_in (lab_node l) st) (labels_of (d_stmts d)) = true)
-      by (apply existsb_exists; eauto).
-    congruence.
+  unfold kf_step. intros H Hd. rewrite Hd in H.
+  destruct (existsb (fun l => occurs_in (lab_node l) st) (labels_of (d_stmts d))) eqn:Ec; [discriminate|].
+  intros l Hl. destruct (occurs_in (lab_node l) st) eqn:Eo; auto.
+  assert (existsb (fun l => occurs_in (lab_node l) st) (labels_of (d_stmts d)) = true)
+    by (apply existsb_exists; eauto).
+  congruence.
 Qed.
 
-(* parsing only adds, whatever the label discipline, as long as nothing is wiped *)
-Lemma parse_call_incl fr st d : wipe_harmless st d -> incl st (parse_call fr st d).
-Proof. intros Hw q Hq. apply parse_call_In; auto. Qed.
+(* parsing only adds: every syntax, every label discipline, every supply *)
+Lemma parse_call_incl fr st d : incl st (parse_call fr st d).
+Proof. intros q Hq. apply parse_call_In; auto. Qed.
 
 (* ------------------------------------------------------------------ *)
 (* Part C: reading the well-formedness predicates *)
@@ -423,7 +389,7 @@ Section Supply.
     Inv j st -> doc_ok j d = true -> Inv (N.succ j) (parse_call (fresh j) st d).
   Proof.
     intros HI Hdoc q Hq. destruct (doc_ok_spec _ _ Hdoc) as [Htgt [Hst _]].
-    apply parse_call_In_weak in Hq. destruct Hq as [Hq|Hq].
+    apply parse_call_In in Hq. destruct Hq as [Hq|Hq].
     - destruct (HI q Hq) as [H1 H2]. split.
       + intros n Hn. apply old_mono; auto.
       + intros Hp. destruct (H2 Hp) as [j' [l' [Ha [Hb Hc]]]]. exists j', l'. repeat split; auto. lia.
@@ -448,10 +414,10 @@ Section Supply.
     Inv j st -> doc_ok j d = true -> kf_step st d = 0 ->
     merge_ok st (parse_call (fresh j) st d) j d = true.
   Proof.
-    intros HI Hdoc Hkf. destruct (kf_step_0 _ _ Hkf) as [Hw Hid].
+    intros HI Hdoc Hkf. pose proof (kf_step_0 _ _ Hkf) as Hid.
     destruct (doc_ok_spec _ _ Hdoc) as [_ [Hst _]].
     apply merge_ok_intro with (g := node_fn (fresh j) (disc_of (d_fmt d))); auto.
-    - intros q. now apply parse_call_In.
+    - intros q. apply parse_call_In.
     - intros q Hq Hp l Hl E. destruct (HI q Hq) as [_ H2].
       destruct (H2 Hp) as [j' [l' [Ha [Hb Hc]]]]. rewrite Hc in E.
       apply tag_inj in E; auto. lia.
@@ -738,7 +704,7 @@ Proof.
   intros Hi1 Hi2 Hg1 Hg2 Hdoc. destruct (doc_ok_spec _ _ Hdoc) as [Htgt [Hst _]].
   assert (forall fr q, In q (parse_call fr [] d) <->
             In q (map (sub_stmt (node_fn fr (disc_of (d_fmt d))) (d_target d)) (d_stmts d))) as Hchar.
-  { intros fr q. rewrite parse_call_In; [simpl; tauto|]. intros _ q' []. }
+  { intros fr q. rewrite parse_call_In. simpl; tauto. }
   destruct (disc_of (d_fmt d)) eqn:Ed; simpl in Hchar.
   - exists (renaming fr1 fr2 (labels_of (d_stmts d))).
     assert (forall fr : N -> N, (forall l, 1000 <= fr l /\ N.even (fr l) = true) -> forall l, ~ stable (fr l)) as Hns.
@@ -773,18 +739,24 @@ Proof.
   split; [vm_compute; reflexivity|]. exists (lab_node 0). split; vm_compute; reflexivity.
 Qed.
 
+(* the witness of the repaired finding F12: on the code before commit 57c67bab an N-Quads call
+   deleted what <urn:x-rdflib:default> held; the repaired model keeps it *)
 Definition w_f12 : case :=
   {| c_init := [((1, 3, 2), 0)];
      c_docs := [ {| d_fmt := NQ; d_target := 0; d_stmts := [(DC 2, 3, DC 2, GC 1)] |} ] |}.
 
-Lemma f12_witness :
-  wf w_f12 /\ kf w_f12 = 2 /\ spec_ok w_f12 (model_obs w_f12) = false /\
-  exists q, In q (c_init w_f12) /\ ~ In q (last (model_obs w_f12) []).
+Lemma f12_prefix_witness :
+  exists fr st d q, In q st /\ ~ In q (parse_call_prefix fr st d) /\ In q (parse_call fr st d).
 Proof.
-  split; [vm_compute; reflexivity|]. split; [vm_compute; reflexivity|].
-  split; [vm_compute; reflexivity|]. exists ((1, 3, 2), 0). split; [simpl; auto|].
-  intros H. apply q_mem_In in H. vm_compute in H. discriminate.
+  exists (std_fresh 0), (c_init w_f12), {| d_fmt := NQ; d_target := 0; d_stmts := [(DC 2, 3, DC 2, GC 1)] |},
+         ((1, 3, 2), 0).
+  split; [simpl; auto|]. split.
+  - intros H. apply q_mem_In in H. vm_compute in H. discriminate.
+  - apply q_mem_In. vm_compute. reflexivity.
 Qed.
+
+Lemma f12_fixed : wf w_f12 /\ kf w_f12 = 0 /\ spec_ok w_f12 (model_obs w_f12) = true.
+Proof. repeat split; vm_compute; reflexivity. Qed.
 
 (* non-vacuity: a mixed run in scope of the theorem *)
 Definition w_ok : case :=
@@ -827,3 +799,10 @@ Lemma w_ok_nonvacuous :
   wf w_ok /\ kf w_ok = 0 /\ length (model_obs w_ok) = 3%nat /\
   spec_ok w_ok (model_obs w_ok) = true.
 Proof. repeat split; vm_compute; reflexivity. Qed.
+
+Lemma run_incl fresh : forall ds j st now, In now (run fresh j st ds) -> incl st now.
+Proof.
+  induction ds as [|d r IH]; intros j st now; simpl; [tauto|].
+  intros [<-|H]; [apply parse_call_incl|].
+  eapply incl_tran; [apply parse_call_incl|]. eapply IH; eauto.
+Qed.
